@@ -584,3 +584,112 @@ class DenomEriSym(Contract):
                 out.append(("factor-times-the-sign-of-the-denominator",
                             z3.Or(z3.And(d0 - dp == 0, term(v) == f), z3.And(d0 - dp != 0, d0 + dp == 0, term(v) == -f))))
         return out
+
+
+# --- Obj.diagonalize_fock: f_pq^n = delta_pq e_p^n for a diagonal Fock matrix ------------------------
+# An element with two different indices whose delta can be evaluated is replaced by the n-th power of
+# the orbital energy of the surviving index together with the substitution of the other index;
+# everything else (other tensors, f_pp, off diagonal blocks, deltas that can not be evaluated) is
+# handed back unchanged / as zero without substitution.
+ASSUMPTIONS += [
+    "Obj.diagonalize_fock: KroneckerDelta(p, q) is S.Zero / S.One / a delta (three cases, C06 contract of KroneckerDelta.eval); evaluate_deltas (C09 contract) either returns a product (the delta could not be evaluated) or the object with exactly one of the two indices left; sympy.Pow / NonSymmetricTensor build the named objects; the exponent is symbolic",
+]
+
+
+class _FockEvaluateDeltas(Contract):
+    key = "adcgen.func:evaluate_deltas"
+    props = []
+    assumed = True
+    note = "C09 contract: the delta is evaluated (one index survives) or the product is returned"
+
+    def apply(self, vc, a):
+        ok = isinstance(a["expr"], Struct) and a["expr"].cls == "ObjTimesDelta"
+        vc.check("pre@evaluate_deltas#the-object-times-its-delta-is-evaluated-with-the-target-indices-in-force",
+                 ok and a.get("target_idx") is vc.ghost["_target"])
+        survivor = vc.ghost["_survivor"]
+        if survivor is None:
+            return Struct("MulV2")
+        return Struct("Evaluated", left=survivor)
+
+
+register(_FockEvaluateDeltas)
+
+
+@register
+class ObjDiagonalizeFock(Contract):
+    key = "adcgen.expr_container:Obj.diagonalize_fock"
+    props = ["C13"]
+
+    def setup(self, vc):
+        from pyvc.values import PSet
+        from spec.idx import new_index
+        zero, one = Struct("Expr", singleton="Zero"), Struct("Expr", singleton="One")
+        C.EXTERNALS["sympy.S.One"], C.EXTERNALS["sympy.S.Zero"] = one, zero
+        C.EXTERNALS["adcgen.tensor_names:tensor_names"] = Struct("TensorNames", fock="f", orb_energy="e")
+        is_fock = vc.choose(2, "is_fock") == 1
+        dcase = ["zero", "one", "delta"][vc.choose(3, "delta")]
+        ecase = ["not-evaluated", "p-survives", "q-survives"][vc.choose(3, "evaluation")]
+        p, q = new_index(vc, "p"), new_index(vc, "q")
+        expo = Sym(vc.fresh_int("exponent"))
+        me = Struct("FockObj", name="f" if is_fock else "X", idx=(p, q), exponent=expo,
+                    sympy=Struct("ObjSympy"), assm=Struct("Opaque", what="assumptions"),
+                    term=Struct("TermOfObj2", target=Struct("Opaque", what="target indices of the term")))
+        for f in ("name", "idx", "exponent", "sympy", "term"):
+            C.STRUCT_ATTR[("FockObj", f)] = (lambda f: lambda ip, o: o.f[f])(f)
+        C.STRUCT_ATTR[("FockObj", "assumptions")] = lambda ip, o: PDict({"marker": o.f["assm"]})
+        C.STRUCT_ATTR[("TermOfObj2", "target")] = lambda ip, o: o.f["target"]
+        delta = {"zero": zero, "one": one, "delta": Struct("DeltaPQ")}[dcase]
+        if dcase != "one":
+            vc.assume(p.t != q.t)       # (a delta of one and the same index is S.One: C06)
+        C.CLASS_MODELS["adcgen.sympy_objects:KroneckerDelta"] = lambda ip, a, k: delta \
+            if len(a) == 2 and a[0] is p and a[1] is q else (_ for _ in ()).throw(Unsupported("other delta"))
+        C.STRUCT_IS["DeltaPQ"] = lambda ip, a, b: a is b
+        C.STRUCT_ARITH["ObjSympy"] = lambda ip, opn, a, b: Struct("ObjTimesDelta") \
+            if opn == "Mult" and {getattr(a, "cls", None), getattr(b, "cls", None)} == {"ObjSympy", "DeltaPQ"} \
+            else (_ for _ in ()).throw(Unsupported("arithmetic on the abstract object"))
+        C.STRUCT_ARITH["DeltaPQ"] = C.STRUCT_ARITH["ObjSympy"]
+        survivor = {"not-evaluated": None, "p-survives": p, "q-survives": q}[ecase]
+
+        vc.ghost["_survivor"] = survivor
+        C.STRUCT_ISINSTANCE["MulV2"] = lambda ip, v, cls: True
+        C.STRUCT_ISINSTANCE["Evaluated"] = lambda ip, v, cls: False
+        C.STRUCT_METHODS[("Evaluated", "atoms")] = lambda ip, o, a, k: PSet([o.f["left"]])
+        C.EXTERNALS["sympy.Pow"] = lambda ip, a, k: Struct("PowV", base=a[0], exp=a[1])
+        C.CLASS_MODELS["adcgen.sympy_objects:NonSymmetricTensor"] = lambda ip, a, k: Struct(
+            "TensorV2", name=a[0], idx=tuple(a[1]))
+        C.CLASS_MODELS["adcgen.expr_container:Expr"] = lambda ip, a, k: Struct("ExprV", of=a[0], kw=dict(k))
+        given = vc.choose(2, "target_given") == 1
+        target = Struct("Opaque", what="given target indices") if given else None
+        vc.ghost["_target"] = target if given else me.f["term"].f["target"]
+        vc.ghost["_cases"] = (is_fock, dcase, ecase, p, q, expo, zero)
+        return {"self": me, "target": target, "return_sympy": vc.choose(2, "return_sympy") == 1}
+
+    def post(self, vc, a, result):
+        is_fock, dcase, ecase, p, q, expo, zero = vc.ghost["_cases"]
+        me = a["self"].f
+        ok = isinstance(result, tuple) and len(result) == 2
+        if not ok:
+            return [("returns-the-object-and-the-substitution", False)]
+        obj, sub = result
+        out = []
+        if not a["return_sympy"]:
+            w = isinstance(obj, Struct) and obj.cls == "ExprV" and set(obj.f["kw"]) == {"marker", "target_idx"} \
+                and obj.f["kw"]["marker"] is me["assm"] and obj.f["kw"]["target_idx"] is vc.ghost["_target"]
+            out.append(("an-expression-with-the-assumptions-and-the-target-indices-in-force-is-returned", w))
+            obj = obj.f["of"] if w else None
+        pairs = list(sub.pairs) if hasattr(sub, "pairs") else list((sub.d or {}).items()) if isinstance(sub, PDict) else None
+        replaced = is_fock and dcase == "delta" and ecase != "not-evaluated"
+        if not replaced:
+            want_obj = zero if (is_fock and dcase == "zero") else me["sympy"]
+            out.append(("untouched-(zero-for-an-off-diagonal-block)-and-no-substitution-unless-the-delta-is-evaluated",
+                        obj is want_obj and pairs == []))
+            return out
+        keep, other = (p, q) if ecase == "p-survives" else (q, p)
+        good = isinstance(obj, Struct) and obj.cls == "PowV" and isinstance(obj.f["base"], Struct) \
+            and obj.f["base"].cls == "TensorV2" and obj.f["base"].f["name"] == "e" \
+            and len(obj.f["base"].f["idx"]) == 1 and obj.f["base"].f["idx"][0] is keep
+        out.append(("replaced-by-the-orbital-energy-of-the-surviving-index", good))
+        out.append(("raised-to-the-power-of-the-fock-matrix-element", good and obj.f["exp"] is expo))
+        out.append(("the-other-index-is-substituted-by-the-surviving-one",
+                    pairs is not None and len(pairs) == 1 and pairs[0][0] is other and pairs[0][1] is keep))
+        return out
